@@ -98,6 +98,8 @@ fn props_of(aspect: &str) -> &'static [&'static str] {
         "predict:count" | "predict:echo" | "predict:dup-id" | "predict:stale-id" | "predict:ep" | "predict:len"
         | "batch:scenes" => &["C01", "C06"],
         "predict:id:foreign-scene" => &["C04"],
+        // the epoch counter of a scene that the operation does not name has moved (frame condition of C04)
+        "proj:epochs:foreign-scene" => &["C04", "C03"],
         "predict:id:expired" => &["C03"],
         "predict:id:assoc" => &["C02", "C12"],
         "predict:vt" => &["C12"],
@@ -241,11 +243,12 @@ impl Interp {
         Some(o)
     }
 
-    fn cmp_proj(&self, run: &Run, spec: &Value) -> Mis {
+    fn cmp_proj(&self, run: &Run, spec: &Value, touched: &[u64]) -> Mis {
         for e in jarr(spec, "epochs") {
             let s = ji(&e[0]) as u64;
             if run.drv.epoch(s) as i64 != ji(&e[1]) {
-                return Some(("proj:epochs".into(), json!({"scene": s, "spec": e[1], "impl": run.drv.epoch(s)})));
+                let sig = if touched.contains(&s) { "proj:epochs" } else { "proj:epochs:foreign-scene" };
+                return Some((sig.into(), json!({"scene": s, "spec": e[1], "impl": run.drv.epoch(s), "operation_names_scenes": touched})));
             }
         }
         let mut real: Vec<Value> = vec![];
@@ -402,7 +405,12 @@ impl Interp {
             }
             o => panic!("unknown op {}", o),
         }
-        self.cmp_proj(run, jget(s, "proj"))
+        // the scenes the operation names (their epoch counters may move; nobody else's may)
+        let touched: Vec<u64> = match op {
+            "batch" => jarr(o, "b").iter().map(|e| jint(e, "scene") as u64).collect(),
+            _ => o.get("scene").and_then(|x| x.as_i64()).map(|x| vec![x as u64]).unwrap_or_default(),
+        };
+        self.cmp_proj(run, jget(s, "proj"), &touched)
     }
 
     /// counts per-property non-triviality of a behaviour (rules of DESIGN.md section 10)
